@@ -765,6 +765,62 @@ def run (ignore : Bool) (ops : List Op) (src : List (Ev Val)) : Run :=
     -- when it ends, when an exception passes through it, or when it is dropped
     closed := (ops.filter fun op => op.kind = .sink).map fun _ => 1 }
 
+/-! ### The pipeline iterator as an OBJECT (`num_threads = 0`): what it does after the first error
+
+```
+def iter_fn(input_iterator=()):                      # transform.py:136–144
+  result = input_iterator
+  for fn in self._runner.fns:
+    result = fn.iterate(result)
+  yield from result                                  # iter_fn is a GENERATOR FUNCTION
+```
+`MultiplexIterator.__next__` calls `next()` of the generator object that `iter_fn(...)` returned.  The
+chain `result` itself is built from C-implemented `map` / `zip` / `itertools` objects (resumable) and
+generators (`Sink.iterate`, `FilterFn`, `iter_ignore_error`, …) and lives ONLY in the frame of that
+generator object.  An exception that leaves the chain passes through `yield from` and FINALISES the
+generator (`Iter.genNext`): its frame is released, the chain is dropped, every `Sink.iterate` generator
+that is still suspended runs its `finally: close()` as soon as nothing refers to the exception any more
+(reference counting: trusted base), and every later `next()` answers `StopIteration`. -/
+
+/-- state of the pipeline iterator object: the events its chain has still to deliver; `none` = the
+generator is finalised -/
+abbrev PipeIt := Option (List (Ev Val))
+
+/-- one `next()` of the pipeline iterator: the generator object around the chain -/
+def pipeNext : PipeIt → Step Val PipeIt := genNext cursorNext
+
+/-- the seeded alternative (`return iter(result)`): the BARE chain, whose outermost object is a
+resumable `map` / `zip` when the last operator is an `apply` / `assign` / `select` -/
+def bareNext : List (Ev Val) → Step Val (List (Ev Val)) := cursorNext
+
+/-- what the caller sees who goes on after the first error -/
+structure Post where
+  /-- what each of the `k` further `next()` calls did (`none` = `StopIteration`) -/
+  calls : List (Option (Ev Val))
+  /-- per sink: `close()` calls so far, read after the error was handled and released, the iterator
+  object still alive -/
+  closedAtError : List Nat
+  /-- per sink: `close()` calls after the `k` further calls -/
+  closedAfter : List Nat
+
+/-- `close()` calls per sink once the generator object is finalised: every `Sink.iterate` generator was
+started by the first `next()`; it has ended, or the exception passed through it, or it was dropped with
+the frame — in each case its `finally` ran exactly once.  While the generator object is alive and
+suspended nothing can be said from the state alone (`none`). -/
+def closedOf (ops : List Op) : PipeIt → Option (List Nat)
+  | none => some ((ops.filter fun op => op.kind = .sink).map fun _ => 1)
+  | some _ => none
+
+/-- `for x in it: …` until the first error, then `k` more `next()` calls on the same iterator object;
+`none` when no error reaches the caller -/
+def runPost (ignore : Bool) (ops : List Op) (src : List (Ev Val)) (k : Nat) : Option Post :=
+  let top := topEvents ignore ops src
+  match consume pipeNext (top.length + 1) (some top) with
+  | (_, none, _) => none
+  | (_, some _, st) =>
+    let r := calls pipeNext k st
+    some { calls := r.1, closedAtError := (closedOf ops st).getD [], closedAfter := (closedOf ops r.2).getD [] }
+
 end Impl
 
 /-! ## Reference semantics of `apply` / `select` **with batch sizes**
